@@ -58,7 +58,7 @@ func (w *c12World) candidates(op *c12Op, c *rtCall, h *hon) ([]mutation, []int) 
 			ms = append(ms, mutation{n, group})
 		}
 	}
-	add("http", "status", "header", "net.cut", "net.err", "redirect", "net.closeerr")
+	add("http", "status", "header", "net.cut", "net.err", "redirect", "net.closeerr", "declen", "declen")
 	if h.status == 200 {
 		add("http", "trunc", "trail")
 		add("json", "jsontype", "jsonnull", "missing", "whole")
@@ -194,7 +194,13 @@ func (w *c12World) mutate(op *c12Op, c *rtCall, h *hon) *served {
 		raw = h.body()
 		fail()
 	case "header":
-		switch t.Intn(5) {
+		switch t.Intn(8) {
+		case 5:
+			o.Header.Del("Content-Type")
+		case 6:
+			o.Header.Set("Content-Type", "application/octet-stream; charset=utf-16")
+		case 7:
+			o.Header.Set("Transfer-Encoding", "chunked")
 		case 0:
 			o.Header.Set("Content-Type", "text/html")
 		case 1:
@@ -207,6 +213,53 @@ func (w *c12World) mutate(op *c12Op, c *rtCall, h *hon) *served {
 			o.Header.Set("Location", "/sim/ct/v1/get-roots")
 		}
 		raw = h.body()
+	case "declen":
+		// what the response DECLARES about its length, varied independently of what the body delivers
+		raw = h.body()
+		o.HasDeclared = true
+		switch t.Intn(6) {
+		case 0, 1:
+			// declared larger than what arrives: the body ends early, the reader reports it (as net/http does)
+			o.Declared = []int64{int64(len(raw)) + 1, 1 << 31, 1 << 49, 1 << 62, 1<<63 - 1}[t.Intn(5)]
+			o.CutAt = len(raw)
+			o.Kind = "declen.larger"
+			if o.Declared >= 1<<49 {
+				o.Kind = "declen.enormous"
+			}
+			fail()
+		case 2:
+			// declared smaller than the body: net/http stops delivering there, cleanly
+			o.Declared = int64(t.Intn(len(raw)))
+			if t.Chance(1, 4) {
+				o.Declared = 0
+			}
+			raw = raw[:o.Declared]
+			o.Kind = "declen.smaller"
+			if o.Declared == 0 {
+				o.Kind = "declen.zero"
+			}
+			fail()
+		case 3:
+			o.Declared, o.Kind = -1, "declen.unknown" // chunked: the whole body, length not announced
+		case 4:
+			// the header says one thing, the ContentLength field (and the body) another
+			o.HasDeclared = false
+			o.Header.Set("Content-Length", []string{"3", "4611686018427387904", "abc", "-5", "0"}[t.Intn(5)])
+			o.Kind = "declen.header-only"
+		default:
+			// an enormous declared length although the whole body arrives and ends cleanly
+			o.Declared = []int64{1 << 31, 1 << 49, 1 << 62, 1<<63 - 1}[t.Intn(4)]
+			o.Kind = "declen.field-only"
+		}
+		if t.Chance(1, 3) {
+			// the same under a status that is not 200
+			o.Status = statusPool[t.Intn(len(statusPool))]
+			if o.Status == 200 {
+				o.Status = 500
+			}
+			o.Kind += "+status"
+			fail()
+		}
 	case "net.cut":
 		raw = h.body()
 		o.CutAt = t.Intn(len(raw) + 1)
